@@ -151,6 +151,9 @@ type target struct {
 	free     map[string][]string // callee text -> names of the fields of a struct-literal argument, in the order they are passed:
 	// a call `return callee(args)` is left uninterpreted — the definition is polymorphic in a result type `R`, takes the callee
 	// as a function into `R` and an injection `ret` of ordinary results into `R`
+	fresh    map[string]bool   // *bytes.Buffer variables that come straight from the pool: `X.Bytes()[:n]` (a slice of the
+	// buffer's spare capacity, whose old contents are unspecified) is n zero bytes — sound where every byte is overwritten
+	// before it is read (the ReadN that follows), as in readMessage
 	funs     map[string]int    // callee text -> index of the *bytes.Buffer argument it writes to: the callee is a function parameter
 	// `args → (new buffer × result)` (an input of the definition, like an oracle, but depending on its arguments)
 	freeStmt map[string][]string // like free, for calls in statement position: the function parameter takes the call's arguments
@@ -182,6 +185,11 @@ var targets = []target{
 		skip: []string{"if !compressed { closer.Data = nil }"},
 		free: map[string][]string{"c.emitMessage": {"Opcode", "Data", "compressed"}},
 		doc:  "readMessage after the payload has been read and unmasked into buf/p: the fragmentation state machine; emitMessage is left uninterpreted (its arguments are what matters), `closer` (buffer recycling) is left out"},
+	{pkg: "gws", fn: "Conn.readMessage", lean: "Conn_readMessage_payload",
+		from: "var fin =", to: "if opcode != OpcodeContinuation && c.continuationFrame.initialized",
+		skip:  []string{"var closer =", "defer closer.Close()"},
+		fresh: map[string]bool{"buf": true}, liveOut: []string{"fin", "p"},
+		doc:   "readMessage: the payload of a data frame is read into a pooled buffer and unmasked (the buffer's recycling through `closer` is left out; a pooled buffer too small for the frame would panic in Go: that is Reader.dataFrame's panic outcome, which the model proves unreachable)"},
 	{pkg: "gws", fn: "Conn.readControl", lean: "Conn_readControl_guards",
 		from: "if !c.fh.GetFIN()", to: "var payload []byte", liveOut: []string{"n"},
 		doc: "the two guards of readControl that precede the payload read"},
@@ -646,6 +654,13 @@ func (f *fn) expr(e ast.Expr) string {
 		}
 		return fmt.Sprintf("(goIdx %s %s)", f.expr(v.X), itv.Value.ExactString())
 	case *ast.SliceExpr:
+		if c, ok := v.X.(*ast.CallExpr); ok && v.Low == nil && v.High != nil {
+			if sel, ok := c.Fun.(*ast.SelectorExpr); ok && sel.Sel.Name == "Bytes" {
+				if id, ok := sel.X.(*ast.Ident); ok && f.t.fresh[id.Name] && isBuffer(f.typeOf(sel.X)) {
+					return fmt.Sprintf("(List.replicate (%s).toNat (0 : UInt8))", f.expr(v.High))
+				}
+			}
+		}
 		x := f.expr(v.X)
 		if v.Slice3 {
 			f.bad(e, "3-index slice")
